@@ -18,7 +18,7 @@ CBMC_FLAGS = ['--unwinding-assertions', '--pointer-overflow-check', '--undefined
               '--drop-unused-functions', '--no-malloc-may-fail', '--json-ui', '--verbosity', '8']
 
 ELEM_IR = {'int': 'i32', 'unsigned char': 'i8', 'Tr': '%struct.Tr', 'TrX': '%struct.TrX', 'TrM': '%struct.TrM',
-           'TrMX': '%struct.TrMX', 'TrC': '%struct.TrC', 'TrA': '%struct.TrA', 'Tv': '%struct.Tv', 'Tw': '%struct.Tw'}
+           'TrMX': '%struct.TrMX', 'TrC': '%struct.TrC', 'TrA': '%struct.TrA', 'Tv': '%struct.Tv', 'Tw': '%struct.Tw', 'Pz': '%struct.Pz'}
 
 def sh(cmd, **kw):
     return subprocess.run(cmd, stdout=subprocess.PIPE, stderr=subprocess.PIPE, text=True, **kw)
